@@ -480,12 +480,15 @@ class For(Composite, StaticNode, ABC):
 
         super().__setstate__(state)
 
-        # Re-forge value links
+        # Re-forge value links. As in `Macro.__setstate__`: the values on both ends came
+        # back with the rest of the state, so do not go through the `value_receiver`
+        # setter -- it would send the value again, which a body node that was stored
+        # while running refuses (and the whole graph could not be loaded)
         for inp, (child, child_inp) in input_links:
-            self.inputs[inp].value_receiver = self.children[child].inputs[child_inp]
+            self.inputs[inp]._value_receiver = self.children[child].inputs[child_inp]
 
         for (child, child_out), out in output_links:
-            self.children[child].outputs[child_out].value_receiver = self.outputs[out]
+            self.children[child].outputs[child_out]._value_receiver = self.outputs[out]
 
     @property
     def nrows(self) -> int | None:
